@@ -107,7 +107,12 @@ func runC06(a *args) error {
 		} else {
 			svc, prod = gen.Pick(r, svcs), gen.Pick(r, prods)
 			p = c06ID(r, svc, prod)
-			switch r.Intn(6) {
+			switch r.Intn(7) {
+			case 6: // long ids that agree on a long prefix (a length limit or a truncating format would identify them)
+				n := gen.Pick(r, []int{60, 120, 127, 128, 129, 200, 255, 256, 300})
+				long := strings.Repeat(gen.Pick(r, []string{"tenant-0123456789/", "x", "ab_"}), n)[:n]
+				p = long + gen.Pick(r, []string{"/user-1001", "1", "_a"})
+				q = long + gen.Pick(r, []string{"/user-1002", "2", "_b"})
 			case 0: // the documented collision family for suffixed sessions
 				q = p + "_" + svc + "_" + prod + gen.Pick(r, []string{"", "_x", "x", "_" + p})
 			case 1:
